@@ -205,6 +205,120 @@ def run_races(ctx, b, n_virtual, n_real, seed, scenarios=None, tag="races", time
     return dict(results=results, scenarios=scs, crash=crash)
 
 
+# ------------------------------------------------------------------------------------ T2: model-chosen schedules
+
+ANCHORS = VERIF / "harness" / "restdiff" / "anchors.json"
+
+
+def build_sched(ctx):
+    """Instrumented build: one yield point per program point of the fine-grained model. -> dict(ok, why, test_bin, placed, missing)"""
+    try:
+        from lib import instrument, seqtie
+        work = ctx.work / "sched"
+        shutil.rmtree(work, ignore_errors=True)
+        work.mkdir(parents=True)
+        ins = instrument.instrument(ANCHORS, work, REPO)
+    except Exception as ex:  # noqa
+        return dict(ok=False, why="instrumenter failed: %r" % (ex,), placed=[], missing=[])
+    if ins["missing"]:
+        return dict(ok=False, why="yield points could not be placed (the code's shape is not the one the anchors describe)", placed=ins["placed"], missing=ins["missing"])
+    acc = work / "rest_verif.go"
+    shutil.copy(VERIF / "harness" / "restdiff" / "rest_verif.go.in", acc)
+    rep = {str(REPO / k): str(VERIF / "harness" / "overlay" / v) for k, v in seqtie.OVERLAYS.items()}
+    rep.update(ins["overlay"])
+    rep[str(REPO / "net" / "rest" / "verif_hooks.go")] = str(acc)
+    ov = work / "overlay.json"
+    ov.write_text(json.dumps({"Replace": rep}))
+    hdir = ctx.work / "harness"
+    if not hdir.exists():
+        hdir = vcheck.harness_dir(ctx)
+    test_bin = work / "sched.test"
+    rc, out = sh([vcheck.GO, "test", "-c", "-vet=off", "-tags", "verif restsess restsched", "-overlay", str(ov), "-o", str(test_bin), "./restdiff"],
+                 cwd=hdir, env=vcheck.go_env(), timeout=900)
+    if rc != 0 or not test_bin.exists():
+        return dict(ok=False, why="the instrumented copy does not build", log=out[-3000:], placed=ins["placed"], missing=[])
+    return dict(ok=True, test_bin=test_bin, placed=ins["placed"], missing=[], work=work)
+
+
+def parse_sched_file(path):
+    """{id: text of the schedule}"""
+    out, cur, buf = {}, None, []
+    try:
+        for line in Path(path).read_text().splitlines():
+            if line.startswith("S "):
+                cur, buf = line.split()[1], []
+            if cur is not None:
+                buf.append(line)
+            if line.strip() == "Z" and cur is not None:
+                out[cur] = "\n".join(buf)
+                cur = None
+    except OSError:
+        pass
+    return out
+
+
+def sched_oracle(trace_text):
+    """schedule-independent C20 facts on the final observations of one executed schedule"""
+    bad = []
+    for line in trace_text.splitlines():
+        f = line.split()
+        if f and f[0] == "E" and len(f) >= 4:
+            if int(f[2]) > 1:
+                bad.append(("connend-twice", "ConnEnd delivered %s times for session %s" % (f[2], f[1])))
+            if f[3] == "1" and int(f[2]) > 0:
+                bad.append(("connend-for-live-session", "session %s is still in the table but its ConnEnd was delivered" % f[1]))
+        if f and f[0] == "F" and len(f) >= 3 and f[2] not in ("200", "201", "401", "409"):
+            bad.append(("status", "handler goroutine %s ended with status %s" % (f[1], f[2])))
+        if f and f[0] == "A" and len(f) >= 4 and f[3] == "panicked":
+            bad.append(("crash", "thread %s panicked" % f[2]))
+    return bad
+
+
+def run_sched(ctx, sb, n, seed, schedules_text=None, tag="sched-gen", timeout=240):
+    """-> dict(k={id: verdict tokens}, scheds={id: text}, traces={id: text}, crash=None|dict)"""
+    driver = lib.OCAML / "restdriver"
+    outdir = ctx.work / tag
+    shutil.rmtree(outdir, ignore_errors=True)
+    outdir.mkdir(parents=True)
+    sf = outdir / "schedules.txt"
+    if schedules_text is not None:
+        sf.write_text(schedules_text)
+    else:
+        rc, out = sh([str(driver), "gen", str(seed), str(n)], cwd=outdir, timeout=300)
+        sf.write_text(out)
+    env = dict(os.environ)
+    env.update({"RD_OUT": str(outdir), "RD_SCHED": str(sf)})
+    rc, out = sh([str(sb["test_bin"]), "-test.run", "TestSched$", "-test.timeout", "%ds" % timeout], cwd=outdir, env=env, timeout=timeout + 30)
+    scheds = parse_sched_file(sf)
+    traces = parse_sched_file(outdir / "trace-sched.txt")
+    crash = None
+    if rc != 0:
+        started, done, hang = lib._progress(outdir)
+        stuck = hang[0] if hang else next((s for s in started if s not in done), "?")
+        crash = dict(id=stuck, kind="hang" if (hang or rc in (3, 124)) else "crash", at=(hang[1] if hang and len(hang) > 1 else None), output=out[-3000:], schedule=scheds.get(stuck))
+    k = {}
+    rc2, out2 = sh([str(driver), "check", str(sf), str(outdir / "trace-sched.txt")], cwd=outdir, timeout=600)
+    for line in out2.splitlines():
+        f = line.split()
+        if len(f) >= 3 and f[0] == "K":
+            k[f[1]] = f[2:]
+    return dict(k=k, scheds=scheds, traces=traces, crash=crash)
+
+
+def load_kind_corpus(kind):
+    out = []
+    d = VERIF / "corpus" / "rest"
+    if d.exists():
+        for f in sorted(d.glob("*.json")):
+            try:
+                c = json.loads(f.read_text())
+            except Exception:  # noqa
+                continue
+            if c.get("kind") == kind:
+                out.append(c)
+    return out
+
+
 def load_race_corpus():
     out = []
     d = VERIF / "corpus" / "rest"
@@ -333,7 +447,59 @@ def run(ctx):
                           "the gateway %s during race scenario %s" % ("deadlocked (no progress on the wall clock)" if c["kind"] == "hang" else "crashed (panic outside a handler goroutine)", c["id"]),
                           name="race_%s_%s.json" % (c["kind"], str(c["id"]).replace("?", "x")))
 
-    any_real_failure = bool(n_fail or crashes or n_race_fail)
+    # ---- T2: model-chosen schedules on the instrumented handler, step by step against the fine-grained model
+    tie3 = cov["ties"].setdefault("T2-sched", {})
+    sb = build_sched(ctx)
+    n_sched = n_sched_ok = n_sched_mis = n_sched_fail = n_items = 0
+    first_sched_mis = None
+    if not sb["ok"]:
+        ctx.note("T2-sched unavailable on this tree: %s%s" % (sb["why"], (" " + json.dumps(sb["missing"][:3])) if sb.get("missing") else ""))
+        tie3.update({"status": "unavailable: " + sb["why"], "yield_points_placed": len(sb.get("placed", [])), "yield_points_missing": sb.get("missing", [])[:10]})
+    else:
+        sched_corpus = "\n".join(c["schedule"] for c in load_kind_corpus("sched") if c.get("schedule"))
+        sruns = []
+        if sched_corpus:
+            sruns.append(run_sched(ctx, sb, 0, ctx.seed, schedules_text=sched_corpus + "\n", tag="sched-corpus"))
+        sruns.append(run_sched(ctx, sb, 300 if quick else 6000, ctx.seed))
+        shapes = set()
+        for sr in sruns:
+            for sid_, text in sr["scheds"].items():
+                n_sched += 1
+                n_items += sum(1 for l in text.splitlines() if l.startswith("I "))
+                shapes.add("\n".join(l for l in text.splitlines() if not l.startswith("S ")))
+                v = sr["k"].get(sid_) or ["not-judged"]
+                bad = sched_oracle(sr["traces"].get(sid_, ""))
+                if bad:
+                    n_sched_fail += 1
+                    if len(ctx.violations) < 6:
+                        ctx.violation({"kind": "sched", "property": "C20", "failed_checks": ["%s: %s" % x for x in bad], "schedule": text, "trace": sr["traces"].get(sid_),
+                                       "model_verdict": " ".join(v), "replay_cmd": "bin/check C20 --replay <this file>"},
+                                      "a model-chosen schedule on the real (instrumented) handler violates C20: %s (schedule %s)" % ("; ".join(x[0] for x in bad[:3]), sid_),
+                                      name="sched_%s.json" % sid_)
+                elif v[0] == "ok":
+                    n_sched_ok += 1
+                else:
+                    n_sched_mis += 1
+                    if first_sched_mis is None:
+                        first_sched_mis = (sid_, v, text, sr["traces"].get(sid_))
+            if sr["crash"]:
+                c = sr["crash"]
+                n_sched_mis += 1
+                if first_sched_mis is None:
+                    first_sched_mis = (c["id"], [c["kind"], "at-item", str(c.get("at"))], c.get("schedule"), c["output"])
+        tie3.update({"status": "ran", "yield_points_placed": len(sb["placed"]), "schedules_executed_on_instrumented_handler": n_sched, "items": n_items,
+                     "schedules_agreeing_step_by_step_and_in_the_final_state": n_sched_ok, "schedules_disagreeing": n_sched_mis,
+                     "schedules_failing_the_oracle": n_sched_fail, "distinct_schedules": len(shapes), "corpus": len(load_kind_corpus("sched")),
+                     "compared": "after every item: the stepped thread's yield point vs the model's pc; at the end: HTTP statuses, ConnEnd count and table entry per cookie"})
+        cov["distinct_sched"] = len(shapes)
+
+    any_real_failure = bool(n_fail or crashes or n_race_fail or n_sched_fail)
+    if first_sched_mis and not any_real_failure:
+        sid_, v, text, tr = first_sched_mis
+        ctx.violation({"broken": "correspondence T2 (fine-grained model vs instrumented handler)", "kind": "sched", "schedule_id": sid_, "first_difference": " ".join(v), "schedule": text,
+                       "trace_or_output": tr, "disagreeing_schedules": n_sched_mis, "replay_cmd": "bin/check C20 --replay <this file>"},
+                      "the fine-grained model and the instrumented handler disagree on %d model-chosen schedule(s) (first: %s %s); no real run violating the property was found"
+                      % (n_sched_mis, sid_, " ".join(v)[:200]), name="correspondence_sched_%s.json" % sid_, no_failing_input=True)
     if n_mis and not any_real_failure:
         hid, mm, r, bb = first_mis
         case = bb["cases"].get(hid)
@@ -356,12 +522,13 @@ def run(ctx):
                  "random_virtual_clock": nv, "random_wall_clock": nr, "corpus": len(race_corpus), "failing": n_race_fail, "failing_rules": race_rules,
                  "oracle": "handlers return, no panic, legal statuses, ConnEnd <= 1 at any time and == 1 after settling, no lock left, ended cookies refused"})
     cov["traces_validated_against_impl"] = n_cases
-    cov["evaluations"] = n_req + n_races
-    cov["distinct_nontrivial"] = len(kinds) + len(race_kinds)
+    cov["evaluations"] = n_req + n_races + n_items
+    cov["distinct_nontrivial"] = len(kinds) + len(race_kinds) + cov.pop("distinct_sched", 0)
     cov["exhaustive"] = False
     cov["rule"] = ("T1: histories generated online from one PCG stream per (seed, index), executed event by event on the real REST handler in a synctest bubble, a probe after "
                    "every event; evaluations count the requests, DELETEs and advances on which the extracted gap-rule oracle was evaluated, plus the executed race scenarios; "
-                   "non-trivial = at least 3 different event kinds; distinct = different event-kind sequences (T1) / different step lists (T2)")
+                   "non-trivial = at least 3 different event kinds; distinct = different event-kind sequences (T1) / different step lists (T2 races) / different "
+                   "(thread table, item list) pairs (T2-sched: schedules drawn by the extracted model among its enabled items, every item compared)")
     for bb in batches[::-1]:
         for hid in sorted(bb["cases"])[:1]:
             if len(cov["samples"]) < 2:
@@ -377,6 +544,34 @@ def do_replay(ctx, b, runner):
     except Exception as ex:  # noqa
         print("cannot read replay file: %r" % (ex,))
         ctx.violation({"broken": "replay", "file": str(ctx.replay)}, "replay file unreadable", name="replay_unreadable.json", no_failing_input=True)
+        return
+    if r.get("kind") == "sched":
+        text = r.get("schedule")
+        if not text:
+            print("the replay file carries no schedule")
+            return
+        sb = build_sched(ctx)
+        if not sb["ok"]:
+            print("the instrumented handler cannot be built on this tree: %s %s" % (sb["why"], sb.get("missing")))
+            ctx.violation({"broken": "replay", "why": sb["why"]}, "replay could not run: " + sb["why"], name="replay_failed.json", no_failing_input=True)
+            return
+        sr = run_sched(ctx, sb, 0, ctx.seed, schedules_text=text + "\n", tag="sched-replay")
+        for sid_, t in sr["scheds"].items():
+            print(t)
+            print(sr["traces"].get(sid_, "(no trace)"))
+            v = sr["k"].get(sid_) or ["not-judged"]
+            bad = sched_oracle(sr["traces"].get(sid_, ""))
+            print("model: " + " ".join(v))
+            print("oracle: " + ("; ".join("%s: %s" % x for x in bad) if bad else "passes"))
+            if bad or v[0] != "ok" or sr["crash"]:
+                ctx.violation({"kind": "sched", "schedule": text, "model_verdict": " ".join(v), "failed_checks": ["%s: %s" % x for x in bad], "crash": sr["crash"]},
+                              "the replayed schedule still fails: %s %s" % (" ".join(v)[:200], "; ".join(x[0] for x in bad)), name="replayed_sched.json", no_failing_input=not bad)
+        if sr["crash"]:
+            print("CRASH/HANG: %s" % sr["crash"]["output"][-1500:])
+        ctx.coverage["samples"] = [{"replayed_schedule": list(sr["scheds"])[:1]}]
+        ctx.coverage["evaluations"] = sum(1 for l in text.splitlines() if l.startswith("I "))
+        ctx.coverage["distinct_nontrivial"] = 1
+        ctx.coverage["rule"] = "replay of one recorded schedule"
         return
     if r.get("kind") == "race":
         sc = r.get("scenario")
